@@ -1,7 +1,9 @@
 #!/usr/bin/env python3
 """Mutant battery (checker validation, never executes zerolog).
 
-Each mutant in /verif/mutants/<PROP>.json is {name, file, old, new, expect: [substr of rule/construct], build: bool}.
+Each mutant in /verif/mutants/<PROP>.json is {name, file, old, new, expect: [substr of rule/construct], build: bool};
+an optional "base": "<X>.diff" applies that behaviour-preserving refactor from /verif/refactors first (the edit is
+then made to the refactored source: the rule must still fire through the refactored shape).
 For each one: copy the *current* /repo tree to a scratch dir outside /repo and /verif, apply the
 textual edit, confirm it still compiles (go build ./..., go vet is not required), run
 bin/zlcheck on the copy and require a VIOLATION whose report mentions `expect`.
@@ -23,6 +25,11 @@ def run_one(prop, m):
         ver = os.path.join(tmp, "verif")
         os.makedirs(os.path.join(ver, "evidence"))
         shutil.copy(os.path.join(VERIF, "known_findings.txt"), ver)
+        if m.get("base"):
+            # refactored-then-broken variant: a behaviour-preserving diff from /verif/refactors first
+            a = subprocess.run(["git", "apply", "--whitespace=nowarn", os.path.join(VERIF, "refactors", m["base"])], cwd=repo, capture_output=True, text=True)
+            if a.returncode != 0:
+                return m["name"], "stale", "base diff does not apply: " + a.stderr[-200:]
         edits = m.get("edits") or [m]
         for e in edits:
             path = os.path.join(repo, e["file"])
